@@ -18,7 +18,8 @@ struct in_s { uint8_t sym[NSYM + 1]; };
 
 void harness(void) {
 	V_BEGIN();
-	uint8_t *buf = (uint8_t *)v_alloc(TOTAL);
+	static uint8_t buf_store[TOTAL];	/* exactly sized object (static: CBMC constant-propagates through it, unlike malloc) */
+	uint8_t *buf = buf_store;
 	size_t pos = 0, si = 0;
 	T_EMIT(buf, pos, T_HEAD, IN.sym, si);
 	size_t r0 = pos;
